@@ -160,6 +160,12 @@ func (n *Node) noteLeader(term int64) {
 	n.noteReplicationFrom(term)
 }
 
+func (n *Node) answeredTerm() int64 {
+	n.mu.Lock()
+	defer n.mu.Unlock()
+	return n.maxTermAnswered
+}
+
 func (n *Node) deletionCount() int {
 	n.mu.Lock()
 	defer n.mu.Unlock()
@@ -440,6 +446,9 @@ type ClientOp struct {
 	Get      *proto.GetResponse
 	Err      string
 	NodeTerm int64 // term the serving node reported right before the call
+	// a List over the user keys (k1..k3): the keys returned
+	List     *proto.ListRequest
+	ListKeys []string
 }
 
 // classify maps an error to "definitely not applied" (raised before the WAL append) or unknown.
@@ -508,6 +517,55 @@ func (g *getCb) OnComplete(err error) {
 	case g.done <- err:
 	default:
 	}
+}
+
+type listCb struct {
+	mu   sync.Mutex
+	keys []string
+	done chan error
+}
+
+func (l *listCb) OnNext(k string) error {
+	l.mu.Lock()
+	l.keys = append(l.keys, k)
+	l.mu.Unlock()
+	return nil
+}
+func (l *listCb) OnComplete(err error) {
+	select {
+	case l.done <- err:
+	default:
+	}
+}
+
+// doList: like doRead, through the leader's List path (its own status check, its own iterator).
+func (c *Cluster) doList(op *ClientOp, bound time.Duration) {
+	n := c.nodes[op.Node]
+	op.InvSeq = c.hist.add(Event{Kind: "client.read.invoke", From: "client", To: op.Node, Detail: "list"})
+	cb := &listCb{done: make(chan error, 1)}
+	var err error
+	if !n.isUp() {
+		err = errUnavailable
+	} else if lc, e := n.director.GetLeader(shardID); e != nil {
+		err = e
+	} else {
+		lc.List(context.Background(), op.List, cb)
+		select {
+		case err = <-cb.done:
+		case <-time.After(bound):
+			err = fmt.Errorf("harness: no answer within the bound")
+		}
+	}
+	if err == nil {
+		cb.mu.Lock()
+		op.ListKeys = append([]string{}, cb.keys...)
+		cb.mu.Unlock()
+		op.Outcome = OutcomeOK
+	} else {
+		op.Outcome = OutcomeUnknown
+		op.Err = errStr(err)
+	}
+	op.RetSeq = c.hist.add(Event{Kind: "client.read.return", From: op.Node, To: "client", Detail: "list " + op.Outcome.String(), Err: op.Err})
 }
 
 func (c *Cluster) doRead(op *ClientOp, bound time.Duration) {
@@ -693,3 +751,5 @@ func dbCommitOffset(k kv.KV) (off int64) {
 	}
 	return x
 }
+
+var shardIDv = shardID
